@@ -71,4 +71,32 @@ func init() {
 	)
 }
 
+func init() {
+	props = append(props,
+		Prop{
+			ID: "C15",
+			Runs: []Run{
+				{Harness: "annotations.ZZC15Simple20", Desc: "@immutable/@testonly/@mutable: real parse*Annotation (compiled regex program of the source literal executed symbolically) vs frozen reference grammar, every ASCII comment text", Bounds: map[string]interface{}{"text_bytes": 20}},
+				{Harness: "annotations.ZZC15Constructor24", Desc: "@constructor: recognition and parsed name list vs reference", Bounds: map[string]interface{}{"text_bytes": 24, "list_items": "<= 5 (Split unwinding asserted)"}},
+				{Harness: "annotations.ZZC15PackageOnly24", Desc: "@packageonly: recognition and allow-list (declaring package first) vs reference", Bounds: map[string]interface{}{"text_bytes": 24, "list_items": "<= 5"}},
+				{Harness: "ignore.ZZC15Ignore18", Desc: "@ignore: recognition and upper-cased code list vs reference", Bounds: map[string]interface{}{"text_bytes": 18, "list_items": "<= 5"}},
+				{Harness: "annotations.ZZC15Implements24", Desc: "@implements: recognition, pointer flag, qualifier, name vs reference", Bounds: map[string]interface{}{"text_bytes": 24}},
+			},
+			Post: func(c *checkCtx) {
+				langEquiv(c, "annotations.ZZC15Regexes", "annotations.ZZC15Lang", []langPair{
+					{"implements", "language(implements) == reference, all lengths"},
+					{"constructor", "language(constructor) == reference, all lengths"},
+					{"immutable", "language(immutable) == reference, all lengths"},
+					{"testonly", "language(testonly) == reference, all lengths"},
+					{"mutable", "language(mutable) == reference, all lengths"},
+					{"packageonly", "language(packageonly) == reference, all lengths"},
+				})
+				langEquiv(c, "ignore.ZZC15IgnoreRegex", "ignore.ZZC15Lang", []langPair{{"ignore", "language(ignore) == reference, all lengths"}})
+			},
+			Outside:     []string{"comment texts longer than the stated bounds for the parsed value (recognition itself is decided for all lengths by the RegLan queries)", "bytes >= 0x80"},
+			Assumptions: []string{"comment bytes are ASCII (0..127)", "aho-corasick Matcher.Contains replaced by its contract (true iff a dictionary word is a substring; dictionary recorded from the real init)", "leftmost-first regex semantics obtained by executing regexp/syntax's compiled program"},
+		},
+	)
+}
+
 var _ = eng.RepoMod
